@@ -206,7 +206,7 @@ def gen_part(rng, pid, big=False, feat=None):
                     cd = dur
                     if ci > 0 and rng.random() < 0.25:
                         cd = rng.choice(durs)  # chord member of another duration: polyphony inside the voice
-                    kind = "unp" if rng.random() < 0.04 else "note"
+                    kind = "unp" if (rng.random() < 0.04 and not graces) else "note"
                     n = {"id": new_id(), "t": pos, "dur": cd, "kind": kind, "step": stp, "alter": rng.choice([0, 0, 0, 1, -1, 2, -2, None]),
                          "oct": octave, "voice": vv, "staff": st}
                     if rng.random() < 0.1:
@@ -251,6 +251,11 @@ def gen_part(rng, pid, big=False, feat=None):
             j = rng.randrange(i + 1, min(len(pitched), i + 6))
             if pitched[i]["t"] < pitched[j]["t"]:
                 d["slurs"].append([pitched[i]["id"], pitched[j]["id"]])
+    # a change of divisions sits on a time point of the part (something starts or ends there)
+    points = set([m[0] for m in d["measures"]] + [m[1] for m in d["measures"]] + [x[0] for x in d["ts"] + d["ks"] + d["clefs"]])
+    for n in d["notes"]:
+        points.update((n["t"], n["t"] + n["dur"]))
+    d["qd"] = [x for x in d["qd"] if x[0] in points]
     gen_extras(rng, d, nstaves)
     return d
 
@@ -314,7 +319,7 @@ def gen_extras(rng, d, nstaves):
         m = rng.choice(meas)
         ex.append(["Fermata", m[0], None, {"ref": "left"}])
     if r() < 0.15:
-        cand = [t for t in inner if t not in [m[0] for m in meas]]
+        cand = [t for t in inner if t not in [m[0] for m in meas] and t not in [x[0] for x in d["qd"]]]
         if cand:
             ex.append(["Fermata", rng.choice(cand), None, {"ref": "middle"}])
     if r() < 0.15:
@@ -324,7 +329,7 @@ def gen_extras(rng, d, nstaves):
         # pedals do not overlap one another (a single pedal line)
         if all(not (e[0] == "SustainPedalDirection" and a < e[2] and e[1] < b) for e in ex):
             ex.append(["SustainPedalDirection", a, b, {"line": r() < 0.5, "staff": staff()}])
-    if r() < 0.04:
+    if r() < 0.01:
         ex.append(["Words", rng.choice(inner), None, {"text": rng.choice(PLAIN_WORDS)}])
 
 
@@ -952,7 +957,7 @@ def _check_roundtrip(ev, s, what, streams, from_file):
         i = next((i for i, (a, b) in enumerate(zip(l1, l2)) if a != b), min(len(l1), len(l2)))
         return "line %d: %r vs %r" % (i + 1, l1[i:i + 1], l2[i:i + 1])
 
-    if x2 != x1 and explicit_voices_and_staves(s) and importer_order(s):
+    if x2 != x1 and explicit_voices_and_staves(s):
         fail("fixpoint: save(load(save(s))) differs from save(s) at " + first_diff(x1, x2))
     if x2 != x1:
         # from the file as re-written the fixpoint must hold whatever the score looked like
@@ -1080,14 +1085,14 @@ def range_streams(ev, s, s2, written, X):
                 el = e[7]
                 n = byname[e[1]][0]
                 ln = loaded[k] if k < len(loaded) else None
-                for label, kind, objs in ((0, "slur", list(n.slur_stops) + list(n.slur_starts)),
-                                          (1, "tuplet", list(n.tuplet_stops) + list(n.tuplet_starts))):
+                for label, kind, groups in ((0, "slur", (("stop", n.slur_stops), ("start", n.slur_starts))),
+                                            (1, "tuplet", (("stop", n.tuplet_stops), ("start", n.tuplet_starts)))):
                     els = el.findall("notations/" + kind)
-                    if len(els) != len(objs):
-                        return
-                    for o, x in zip(objs, els):
-                        ev_a.append((label, r(o)))
-                        num_a.append(int(x.get("number")))
+                    for typ, objs in groups:
+                        if objs:
+                            ev_a.append((label, [r(o) for o in objs]))
+                            num_a.append([int(x.get("number")) for x in els if x.get("type") == typ])
+                    for x in els:
                         if ln is not None:
                             marks[kind].append((k, ln.start.t, x.get("type") == "start", int(x.get("number"))))
                 tt = set(t.get("type") for t in el.findall("tie"))
@@ -1113,8 +1118,8 @@ def range_streams(ev, s, s2, written, X):
             ev.requests.append("tie %d %s" % (len(ties), " ".join("%d %d %d %d %s %s" % (a, b, c, d, W.b(e), W.b(f)) for a, b, c, d, e, f in ties)))
             ev.impl.append("[%s]" % ",".join("(%d,%d)" % x for x in links))
     if ev_a:
-        ev.requests.append("num %d %s" % (len(ev_a), " ".join("%d %d" % x for x in ev_a)))
-        ev.impl.append("[%s]" % ",".join(str(x) for x in num_a))
+        ev.requests.append("numg %d %s" % (len(ev_a), " ".join("%d %d %s" % (l, len(rs), " ".join(map(str, rs))) for l, rs in ev_a)))
+        ev.impl.append("[%s]" % ",".join("[%s]" % ",".join(map(str, g)) for g in num_a))
     # range_counter: wedges (label 2) and dashes (label 3) in the order do_directions meets them
     ev_b, num_b = [], []
     counter = {}
@@ -1224,9 +1229,15 @@ def domain_issues(s):
                 out.append("a direction without extent")
             if isinstance(d, S.PedalDirection) and d.end is None:
                 out.append("a pedal without end")
+        mstarts = set(m.start.t for m in ms)
         for f in p.iter_all(S.Fermata):
             if f.ref is None:
                 out.append("a barline fermata without location")
+            if f.ref == "middle" and f.start.t in qt and f.start.t not in mstarts:
+                out.append("a mid-measure barline on a change of divisions")
+        pts = set(tp.t for tp in p._points)
+        if any(t not in pts for t in qt[1:]):
+            out.append("a change of divisions where nothing starts or ends")
         for o in list(p.iter_all(S.Repeat)) + list(p.iter_all(S.Ending)):
             if o.start is None or o.end is None:
                 out.append("a half-open repeat or ending")
